@@ -299,6 +299,21 @@ def run_crash(exe, brec, ops, point, k, workdir, tag):
     res['empty_junk'] = sum(1 for b in blocks if not (b.get('content') or b.get('pending')))
     res['compact'] = compact
     res['nblocks'] = len(blocks)
+    # the same blocks with parts of a magic number in front of them: the real tool must recover the same
+    res['near'] = None
+    if blocks:
+        with open(dump, 'rb') as f:
+            near = near_magic_compact(f.read(), blocks, k)
+        for name, data in (('plain', compact), ('near', near)):
+            with open(dump + '.' + name, 'wb') as f:
+                f.write(data)
+        qa = subprocess.run([brec, dump + '.plain', '-'], stdout=subprocess.PIPE, stderr=subprocess.PIPE, env=e2, timeout=300)
+        qb = subprocess.run([brec, dump + '.near', '-'], stdout=subprocess.PIPE, stderr=subprocess.PIPE, env=e2, timeout=300)
+        if qa.returncode != qb.returncode or qa.stdout != qb.stdout:
+            res['near'] = {'image_hex': near.hex()[:40000], 'rc_plain': qa.returncode, 'rc_near': qb.returncode,
+                           'recovered_plain': qa.stdout.hex()[:4000], 'recovered_near': qb.stdout.hex()[:4000]}
+        for name in ('plain', 'near'):
+            os.remove(dump + '.' + name)
     for f in (dump, dump + '.out'):
         if os.path.exists(f):
             os.remove(f)
@@ -350,6 +365,24 @@ def scan_image(img, max_block=1 << 24):
     for b in blocks:
         compact += bytes(8) + img[b['pos']:b['end']]
     return blocks, rejected, compact + bytes(8)
+
+
+def near_magic_compact(img, blocks, salt):
+    """the accepted blocks of a real image again, each preceded by eight bytes that contain the first byte of the magic numbers
+    (0xBC) one to seven positions in front of the block - what a malloc chunk header or the tail of a neighbouring object can
+    look like.  No complete magic number starts in these bytes, so the tool must find exactly the same blocks."""
+    out = b''
+    for i, b in enumerate(blocks):
+        k = (salt + 3 * i) % 9
+        sep = bytearray(8)
+        if k < 7:
+            sep[7 - k] = 0xBC                   # one 0xBC, 1..7 bytes before the block
+        elif k == 7:
+            sep[6] = sep[7] = 0xBC              # two of them right in front of it
+        else:
+            sep[2] = sep[5] = 0xBC
+        out += bytes(sep) + img[b['pos']:b['end']]
+    return out + bytes(8)
 
 
 def image_hypotheses(blocks, point):
@@ -510,7 +543,17 @@ def check_c08(ctx):
                           {'kind': 'crash_point', 'script': res['line'], 'point': point, 'hit': k, 'completed': res['completed'],
                            'recovered_hex': res['recovered'].hex()[:4000], 'consumed_bytes': len(res['consumed']),
                            'replay': 'echo "<script>" | VERIF_DUMP=/tmp/core build/bin/crash_harness-* && build/bin/brecovery-* /tmp/core -'})
+    near_fail = 0
+    for (si, ops, attempted, point, k), res, what in results:
+        if res['status'] == 'crashed' and res.get('near'):
+            near_fail += 1
+            prop_fail.add((si, point, k, 'near'))
+            if near_fail <= 3:
+                ctx.violation('near-magic-%s-%d' % (point, k), 'C08: the blocks of a real memory image are not all recovered when bytes that look like the start '
+                              'of a magic number (0xBC) lie in the eight bytes in front of them: the tool recovers something else than from the same blocks behind zero bytes',
+                              dict({'kind': 'input', 'script': res['line'], 'point': point, 'hit': k}, **res['near']))
     ctx.streams['crash_images'] = by_point
+    ctx.streams['near_magic_images'] = {'images': sum(1 for _, r, _ in results if r['status'] == 'crashed' and r.get('nblocks')), 'differences': near_fail}
     # tie of the image model: (1) the hypotheses of the theorems hold of every real image; (2) the model of the recovery tool, run
     # on the blocks of the real image, produces exactly what the real tool produced from the full image
     crashed = [(j, res) for j, res, what in results if res['status'] == 'crashed']
